@@ -28,6 +28,8 @@ DOCS = [
     f'<r {XSI} id="i1" ref="i1"><item k="1"><a>x</a></item></r>', f'<r {XSI} id="i1" ref="zz"><item k="1"><a>x</a></item></r>',
     f'<r {XSI}><item k="q"><a>x</a></item></r>', f'<r {XSI}><item k="1"><a>x</a></item><o:x xmlns:o="urn:o"/></r>', '<r><bogus/></r>', '<r><item k="1"><a>x</a>',
     f'<r {XSI}><item k="3" xsi:type="Nope"><a>x</a></item></r>',
+    f'<r {XSI} xmlns:xs="http://www.w3.org/2001/XMLSchema"><item k="1"><a>x</a></item><fix xsi:type="xs:integer">1</fix></r>',      # a fixed value seen first through another effective type
+    f'<r {XSI}><item k="1"><a>x</a></item><fix>1.000</fix></r>',
 ]
 OPS = ['is_valid', 'iter_errors', 'decode_lax', 'decode_strict', 'validate', 'lazy', 'to_objects', 'stop', 'encode']
 
